@@ -36,7 +36,7 @@ def exactSchema : Schema → Bool
   | .num i mult _ mx ex => multOk mult && (i || mult.isNone) && (!ex || mx.isSome)
   | .str _ _ p => (match p with | some p => startAnchored p | none => true)
   | .bool => true
-  | .enum vs => !vs.isEmpty && vs.all Sch.enumValOk
+  | .enum vs => !vs.isEmpty && vs.all Sch.enumScalar
   | _ => false
 
 /-- the trivial resolvers / oracles used by the kernel-checked counterexamples -/
